@@ -101,6 +101,7 @@ structure HdrScan where
   contentLength : Nat := 0
   haveCL : Bool := false
   isChunked : Bool := false
+  haveTE : Bool := false
   deriving DecidableEq, Repr
 
 /-- strip one trailing CR (`if (!line.empty() && line.back() == '\r') line.pop_back()`) -/
@@ -131,8 +132,9 @@ def scanHeaderLines : List Bytes → HdrScan → Option HdrScan
           else if n > Gen.Http.serverMaxBodySize then none
           else scanHeaderLines rest { hs with contentLength := n, haveCL := true }
       else if key = ascii "transfer-encoding" then
-        if contains (lower value) (ascii "chunked") then scanHeaderLines rest { hs with isChunked := true }
-        else scanHeaderLines rest hs
+        -- FC15a repair: chunked iff the FINAL coding of the (last) Transfer-Encoding line is exactly `chunked`
+        scanHeaderLines rest { hs with haveTE := true,
+                                       isChunked := lastToken (splitOn 44 (lower value)) [] == ascii "chunked" }
       else scanHeaderLines rest hs
 
 /-- one turn of the `while (true)` extraction loop -/
@@ -151,7 +153,8 @@ def extractOne (buf : Bytes) : Extract :=
       match scanHeaderLines (getLines (buf.take headerEnd)) {} with
       | none => .close
       | some hs =>
-        if hs.isChunked ∧ hs.haveCL then .close
+        if hs.haveTE ∧ ¬ hs.isChunked then .close          -- a transfer coding the server cannot decode
+        else if hs.isChunked ∧ hs.haveCL then .close
         else if hs.isChunked then
           match findChunkedRequestEnd buf (headerEnd + 4) with
           | .malformed => .close
